@@ -2,6 +2,7 @@
 """Prints the prompt for a mutation sub-agent: property text + scratch worktree only."""
 import json,sys
 pid=sys.argv[1]; wt=sys.argv[2]
+round2 = len(sys.argv) > 3 and sys.argv[3] == "round2"
 p=[json.loads(l) for l in open('/verif/properties.jsonl') if json.loads(l)['id']==pid][0]
 print(f"""You are helping to evaluate a verification effort for the Go project jamf/regatta (an etcd-like distributed KV store: Pebble-backed Raft state machines via dragonboat, leader-to-follower cross-cluster log replication).
 
@@ -24,4 +25,4 @@ After producing each mutant, RESET the worktree to pristine (`git -C {wt} checko
 
 Environment notes (IMPORTANT): the sandbox has NO network. For every shell call export these first: `export GOFLAGS=-mod=mod GOPROXY=off GOSUMDB=off GOTOOLCHAIN=local; unset GOWORK`. Go 1.23 is the default toolchain. Running go with -mod=mod may rewrite go.mod in the worktree (moves golang.org/x/net to a direct require): that is harmless, but do NOT include go.mod/go.sum in patch.diff (use `git diff -- . ':!go.mod' ':!go.sum'`). Always pass `-timeout` to go test (some failure modes hang). Tests of storage/table and replication start real in-process Raft nodes and take 10-20 s. Do not spend more than ~25 minutes per mutant; if one idea does not work out (tests catch it, or you cannot demonstrate it), drop it and try another. If you cannot get three, deliver what you have.
 
-Finish with a short plain-text summary listing, per mutant: the title, the files touched, what is needed to manifest, and the verification results. Be honest about anything you could not verify.""")
+{"ROUND 2 EMPHASIS: an earlier round already produced the most obvious mutants in the central functions of this property. Look for breakage in LESS OBVIOUS places: secondary code paths (batch/sequence command variants, error and retry paths, the open/restart path, the follower or forwarding side, snapshot/restore paths, helper packages, wiring and configuration in cmd/), interactions of two functions that each look fine alone, boundary conditions of loops and slices, and omissions (a step, reset or check that is silently no longer performed) rather than wrong values. " if round2 else ""}Finish with a short plain-text summary listing, per mutant: the title, the files touched, what is needed to manifest, and the verification results. Be honest about anything you could not verify.""")
